@@ -2,6 +2,7 @@
 import json
 
 from lib.verif import *
+from props import c11_ref as REF
 
 THEOREMS = [
     "C11_handshake_agrees", "C11_handshake_rejects", "C11_stream_roundtrip",
@@ -11,7 +12,8 @@ THEOREMS = [
 MODULE = "LV.Noise.Props"
 TARGETS = ["theories/Noise/Props.vo", "theories/Noise/Exec.vo", "theories/Noise/Examples.vo",
            "theories/Noise/GenBridge.vo"]
-HARNESS = ["brontide/verif_noise_test.go", "brontide/verif_noise_multi_test.go"]
+HARNESS = ["brontide/verif_noise_test.go", "brontide/verif_noise_multi_test.go",
+           "brontide/verif_noise_oracle_test.go"]
 WARM = [{"pkg": "brontide", "files": HARNESS}]
 IMPORTS = ("From Coq Require Import List NArith Bool.\nImport ListNotations.\n"
            "From LV Require Import Noise.Model Noise.Exec.\n")
@@ -456,6 +458,74 @@ def pred_multi(c, stats):
     return f
 
 
+def pred_href(c, stats):
+    """Honest handshake between real Machines whose static keys are served by different ECDH
+    implementations (keychain.PrivKeyECDH / keychain.PubKeyECDH over a harness ring / a harness
+    SingleKeyECDH written from BOLT-8), recomputed from the four private keys by the pure python
+    reference props/c11_ref.py (secp256k1, HKDF, ChaCha20-Poly1305, BOLT-8 nonce encoding):
+    the handshake completes; the acts, (h, ck, temp key) after every step on both sides, the final
+    send / receive keys and salts, the learnt static key, the first frame of each direction and the
+    first frame after a key rotation are byte for byte the reference's."""
+    f = []
+    ref = REF.handshake(*[int(c[k], 16) for k in ("ls", "rs", "ei", "er")])
+    impl = "%s/%s" % tuple(c["impl"])
+    stats["href_impl"][impl] = stats["href_impl"].get(impl, 0) + 1
+    stats["href_forced"][str(c["forced"])] = stats["href_forced"].get(str(c["forced"]), 0) + 1
+    for name, pt in zip(("es", "ee", "se"), ref["points"]):
+        x = pt[0].to_bytes(32, "big")
+        h = stats["ecdh_shared_x"]
+        for key, cond in (("leading zero byte", x[0] == 0), ("two leading zero bytes", x[:2] == b"\0\0"),
+                          ("high bit set", x[0] >= 0x80), ("y odd", pt[1] & 1 == 1), ("y even", pt[1] & 1 == 0)):
+            if cond:
+                h["%s %s" % (name, key)] = h.get("%s %s" % (name, key), 0) + 1
+        if x[0] == 0:
+            stats["ecdh_lz_cases"][impl] = stats["ecdh_lz_cases"].get(impl, 0) + 1
+    if not ref["sym"]:
+        f.append("reference ECDH is not symmetric (reference bug)")
+    if not c.get("completed"):
+        f.append("honest handshake refused (initiator dials the responder's real static key; static keys "
+                 "served by %s): result codes of Gen/Recv act 1..3 %s" % (impl, c["codes"]))
+    names = ("act one", "act two", "act three")
+    for i, a in enumerate(c["acts"]):
+        if a != ref["acts"][i].hex():
+            f.append("%s differs from the BOLT-8 reference computed from the private keys" % names[i])
+            break
+    steps = ("GenActOne", "RecvActOne", "GenActTwo", "RecvActTwo", "GenActThree", "RecvActThree")
+    for i, st in enumerate(c["states"]):
+        want = [x.hex() for x in ref["states"][i // 2]]
+        for j, nm in enumerate(("handshake digest h", "chaining key ck", "temp key")):
+            if st[j] != want[j]:
+                f.append("after %s: %s differs from the reference" % (steps[i], nm))
+                break
+        else:
+            continue
+        break
+    if c.get("completed"):
+        sk, rk, ck = ref["sk"].hex(), ref["rk"].hex(), ref["ck"].hex()
+        for nm, want in (("ini_send", [sk, ck, 0]), ("ini_recv", [rk, ck, 0]),
+                         ("rsp_send", [rk, ck, 0]), ("rsp_recv", [sk, ck, 0])):
+            if c[nm] != want:
+                f.append("%s cipher state (key, salt, nonce) differs from the reference" % nm)
+        if c.get("learnt") != ref["ls_pub"].hex():
+            f.append("responder learnt a static key other than the initiator's")
+        msg = bytes.fromhex(c["msg"])
+        fr = c.get("frames") or []
+        want = [REF.frame(ref["sk"], 0, msg).hex(), REF.frame(ref["rk"], 0, msg).hex()]
+        if len(fr) == 3:
+            salt, key = REF.rotate(ref["ck"], ref["sk"])
+            want.append(REF.frame(key, 0, msg).hex())
+            stats["href_rotation_frames"] += 1
+        if len(fr) < 2:
+            f.append("first frames missing (WriteMessage / Flush failed)")
+        for i, (g, w) in enumerate(zip(fr, want)):
+            if g != w:
+                f.append("%s differs from the reference (ChaCha20-Poly1305, nonce encoding, length "
+                         "header, HKDF rotation)" % ("first frame initiator->responder",
+                                                     "first frame responder->initiator",
+                                                     "first frame after the key rotation")[i])
+    return f
+
+
 def size_hist_conn(sizes):
     h = {}
     for x in sizes:
@@ -480,6 +550,8 @@ def predicate_all(ctx, rows, stats, limit=3, env=None):
             f, th = pred_tr(c, stats), "C11_stream_roundtrip"
             if f and ("tamper" in f[0] or "position" in f[0] or "twice" in f[0]):
                 th = "C11_tamper_rejected" if "tamper" in f[0] else "C11_nonce_unique"
+        elif c["kind"] == "href":
+            f, th = pred_href(c, stats), "C11_handshake_agrees"
         elif c["kind"] == "multi":
             f = pred_multi(c, stats)
             th = "C11_conn_stream_roundtrip" if f and "(conn)" in f[0] else "C11_stream_roundtrip"
@@ -504,6 +576,8 @@ def new_stats():
             "conn_ops": {}, "conn_write_codes": {}, "conn_read_codes": {}, "conn_write_sizes": [],
             "release": {"tr no-op Flush": 0, "tr redundant": 0, "tr pending": 0,
                         "conn no-op Flush": 0, "conn redundant": 0, "conn pending": 0},
+            "href_impl": {}, "href_forced": {}, "ecdh_shared_x": {}, "ecdh_lz_cases": {},
+            "href_rotation_frames": 0,
             "multi_families": {}, "multi_modes": {}, "multi_merges": 0, "multi_session_mix": {},
             "multi_enum_variants": {}, "multi_steps_while_other_pending": 0}
 
@@ -535,6 +609,10 @@ def run(ctx):
             env.update({k: str(v) for k, v in (rp.get("detail", {}).get("harness_env") or {}).items()})
         except Exception:
             pass
+    if not REF.selftest():
+        ctx.violation("harness_failed", "props/c11_ref.py selftest (BOLT-8 vectors)", {},
+                      signature="reference-selftest", failing_input=False)
+        return
     rc, rows, out = run_once(ctx, env=env, race=False)
     if rc != 0 or not rows:
         ctx.violation("harness_failed", "TestVerifNoise", {"log": out[-4000:]},
@@ -577,7 +655,7 @@ def run(ctx):
                     "VERIF_N_TR": "400" if "tr" in kinds_bad else "0",
                     "VERIF_N_ROT": "8" if "tr" in kinds_bad else "0",
                     "VERIF_N_MULTI": "300" if mu else "0", "VERIF_N_MCONC": "30" if mu else "0",
-                    "VERIF_N_MENUM": "8" if mu else "0"}
+                    "VERIF_N_MENUM": "8" if mu else "0", "VERIF_N_HREF": "0"}
             rc2, rows2, _ = run_once(ctx, suffix="d%d" % extra, env=env2)
             if rc2 == 0 and predicate_all(ctx, rows2, new_stats(), limit=1, env=env2):
                 ctx.note("directed search found a failing input with seed %s" % env2["VERIF_SEED"])
@@ -667,7 +745,13 @@ def run(ctx):
                 "or failing net.Conn Write at a seeded call index (header / body / inside the MAC), a Write "
                 "while a record is pending, WriteMessage + Flush retries, Conn.Read with buffer sizes 0, 1, "
                 "rest-1, rest, rest+1, 65535, 70000+, ReadNextMessage / ReadNextHeader+Body, reads at end of "
-                "stream and on a torn record; model replays every call), multi-session cases (2..4 sessions, "
+                "stream and on a torn record; model replays every call), oracle cases (kind href: honest "
+                "handshakes whose static keys are served by keychain.PrivKeyECDH / keychain.PubKeyECDH over "
+                "a harness ring / a harness ECDH written from BOLT-8, all 9 pairings x all 8 subsets of "
+                "{es, ee, se} forced to a shared point whose x starts with a zero byte (key search); acts, "
+                "(h, ck, temp key) after each of the six steps, final keys, first frames and the first frame "
+                "after a rotation compared byte for byte with a pure python BOLT-8 reference computed from "
+                "the private keys), multi-session cases (2..4 sessions, "
                 "Machine level or brontide.Conn level, alive in one process: 'enum' = ALL 924 merges of two "
                 "scripts W F X W Fp Ff (X a redundant release, Fp a Flush cut inside header or body) for "
                 "Machine/Machine, Conn/Conn, Machine/Conn pairs, the harness compares every merge's session "
@@ -680,6 +764,12 @@ def run(ctx):
                 "non-trivial = not an untampered handshake; distinct by full case",
         "traces_validated_against_impl": len(units),
         "case_kinds": kinds,
+        "oracle_handshakes_static_key_impl (initiator/responder: priv = keychain.PrivKeyECDH, pub = "
+        "keychain.PubKeyECDH over a harness ring, ref = harness SingleKeyECDH)": stats["href_impl"],
+        "oracle_forced_leading_zero_mask (bit0 es, bit1 ee, bit2 se)": stats["href_forced"],
+        "ecdh_shared_x_leading_zero_cases": stats["ecdh_lz_cases"],
+        "ecdh_shared_point_classes": dict(sorted(stats["ecdh_shared_x"].items())),
+        "oracle_rotation_frames_checked": stats["href_rotation_frames"],
         "multi_session_families": stats["multi_families"],
         "multi_session_family_modes (enum: 0 Machine/Machine 1 Conn/Conn 2 Machine/Conn; rand: 0 uniform "
         "1 bursts 2 switch-away-while-pending)": stats["multi_modes"],
